@@ -18,7 +18,7 @@ SCENARIOS = {
     "C01": ["async_mt"],
     "C03": ["ask_vs_end", "ask_vs_end", "async_mt", "end_vs_observers"],
     "C02": ["async_mt"],
-    "C06": ["kill_then_drop", "kill_then_drop", "async_mt"],
+    "C06": ["kill_then_drop", "kill_then_drop", "kill_then_drop", "async_mt"],
     "C11": ["ids", "end_vs_observers"],
     "C14": ["dd_mt"],
     "C15": ["dd_mt"],
@@ -102,6 +102,9 @@ def run_batch(prop, scenarios, n_runs, seed):
         mseed = (seed + i * 101) % (1 << 31)
         # the id-allocation window is a handful of instructions: pre-empt much more often there
         rates = ["0.1", "0.3", "0.5"] if sc in ("ids", "dd_mt") else RATES
+        if sc == "kill_then_drop":
+            # the actor task must be pre-empted in the middle of one poll of its loop
+            rates = ["0.05", "0.5", "0.2", "0.01", "0.1", "0.3"]
         if sc in ("ask_vs_end", "blocking_ask_vs_end"):
             # both regimes matter here: pre-emption inside the sender's reserve | push window, and no pre-emption at
             # all (the actor replies, ends and closes its mailbox before the woken caller gets to run)
@@ -159,7 +162,8 @@ def m_part(prop, tier, seed):
     if prop == "C03":
         n = 32 if tier == "quick" else 480
     if prop == "C06":
-        n = 32 if tier == "quick" else 640
+        # the kill-then-drop window shows in about 4 % of the executions of its scenario on a tree that has the defect
+        n = 96 if tier == "quick" else 960
     if prop in ("C14", "C15"):
         n = 24 if tier == "quick" else 480
     if prop == "C14":
